@@ -74,8 +74,9 @@ def _quantize_model(model, name, aname):
 
     if name in MIXED:
         other = "qfloat8_e4m3fn" if aname == "qint8" else "qint8"
-        quantize(model, include="0", weights=num.qt("qint8"), activations=num.qt(other))
-        quantize(model, include="1", weights=num.qt("qint8"), activations=num.qt(aname))
+        quantize(model, modules=[model[0]], weights=num.qt("qint8"), activations=num.qt(other))
+        quantize(model, modules=[model[1]], weights=num.qt("qint8"), activations=num.qt(aname))
+        assert model[0].activation_qtype.name == other and model[1].activation_qtype.name == aname
     else:
         quantize(model, weights=num.qt("qint8"), activations=num.qt(aname))
 
@@ -276,7 +277,8 @@ def _run_history(task, seq, split, out, only=False):
                             if not first and r["out"] == 1.0:
                                 r["unit_hit"] = True
                             r["out"] = _ema(r["out"], tgt, mom, first)
-                            r["last_in_absmax"] = float(xin.to(torch.float64).abs().max())
+                            # (an adopted scale belongs to the producer's qtype: the no-saturation clause is about scales averaged from float inputs)
+                            r["last_in_absmax"] = float(xin.to(torch.float64).abs().max()) if xscale is None else None
                             r["last_raw_absmax"] = float(raw.to(torch.float64).abs().max())
                     bi += 1
             # leaving the context: modules disabled by streamlining become exempt
